@@ -105,11 +105,25 @@ class Check:
         if env:
             e.update({k: str(v) for k, v in env.items()})
         t0 = time.time()
-        try:
-            p = subprocess.run([self.vdrive] + [str(a) for a in args], cwd=self.work, env=e, input=stdin,
-                               stdout=subprocess.PIPE, stderr=subprocess.PIPE, text=True, timeout=timeout)
-        except subprocess.TimeoutExpired:
-            self.fatal("vdrive %s timed out after %ss" % (" ".join(map(str, args[:2])), timeout))
+
+        def once():
+            for a in args:
+                if isinstance(a, str) and os.path.exists(a + ".hang"):
+                    os.remove(a + ".hang")
+            try:
+                return subprocess.run([self.vdrive] + [str(a) for a in args], cwd=self.work, env=e, input=stdin,
+                                      stdout=subprocess.PIPE, stderr=subprocess.PIPE, text=True, timeout=timeout)
+            except subprocess.TimeoutExpired:
+                self.fatal("vdrive %s timed out after %ss" % (" ".join(map(str, args[:2])), timeout))
+        p = once()
+        if p.returncode == 3:
+            # The driver's watchdog fired.  Before this counts as "a call did not return" it must happen again in a second run of
+            # the same (seeded, deterministic) driver with the per-case limit multiplied by 6: a machine under load is not a defect.
+            e["VERIF_WD_SCALE"] = "6"
+            self.notes.append("watchdog fired in vdrive %s; re-running with a 6x limit to confirm" % " ".join(map(str, args[:2])))
+            p = once()
+            if p.returncode != 3:
+                self.notes.append("not confirmed: the second run completed (first firing attributed to machine load)")
         if p.returncode == 3:
             # the watchdog of the driver: a call into the library did not return
             hang = None
